@@ -71,6 +71,12 @@ def gen_instance(rng, iid, family='random', nmax_geos=6):
   n_test = rng.choice([1, 2, 2, 3, 3, 4, 4, 7])
   npm = rng.choice([90, n_dates, max(n_test + 3, n_dates - rng.randint(1, 5)), n_test + 3 + rng.randint(0, 4)])
   npm = max(npm, n_test + 3)
+  if family == 'longtest':
+    # long calendars with a test period of about a hundred time points (e.g. a quarter of daily data)
+    n = rng.choice([2, 2, 3])
+    n_dates = rng.randint(104, 135)
+    n_test = rng.choice([t for t in (40, 96, 97, 98, 99, 100, 101, 120) if t + 3 <= n_dates])
+    npm = max(rng.choice([n_dates, 200, n_test + 3 + rng.randint(0, 6)]), n_test + 3)
   nprng = np.random.RandomState(rng.randint(0, 2 ** 31 - 1))
   cells = gen_panel(nprng, n, n_dates, mirror=(family == 'cancel'))
   if rng.random() < 0.3:
@@ -231,8 +237,22 @@ def oracle_par(inst):
   return p
 
 
+def keep_in_tlc_range(inst):
+  """TLC's integers are 32-bit and the share / volume clauses cross-multiply a group weight with the parts of a
+  fraction: an instance whose panel total times the largest part would leave that range gets no share / volume
+  constraint (decided from the instance alone, before anything is run)."""
+  tot = int(sum(abs(v) for v in inst['cells'].values())) + len(inst['cells'])
+  parts = [int(x) for x in tuple(inst['share']) + (inst['vtol'][0] + inst['vtol'][1],)]
+  if any(parts) and tot * max(parts + [1]) >= 2 ** 31 - 1:
+    inst['share'] = (0, 0, 0, 0)
+    inst['vtol'] = (0, 0)
+    inst['kept_in_tlc_range'] = True
+  return inst
+
+
 def attach_oracle(inst):
   """Chooses the budget range from the oracle's own required budgets, then builds the final tables."""
+  keep_in_tlc_range(inst)
   geos = list(range(1, inst['n'] + 1))
   if inst['want_budget'] and inst['n'] >= 2 and inst['par']['iroas'] == 0:
     inst['budget'] = (0.0, 100.0)       # with iroas on its bound every required budget is infinite
@@ -746,7 +766,7 @@ FAMILIES = {
     'C02': [('constraints', 0.5), ('random', 0.27), ('fixedtrt', 0.15), ('tiny', 0.08)],
     'C03': [('random', 0.45), ('constraints', 0.45), ('cancel', 0.1)],
     'C04': [('random', 0.6), ('constraints', 0.4)],
-    'C09': [('degenerate', 0.45), ('tiny', 0.25), ('constraints', 0.3)],
+    'C09': [('degenerate', 0.42), ('tiny', 0.23), ('constraints', 0.27), ('longtest', 0.08)],
     'C13': [('random', 0.45), ('constraints', 0.3), ('c13vol', 0.12), ('c13ratio', 0.13)],
     'C14': [('random', 0.7), ('constraints', 0.3)],
     'C11': [('random', 0.5), ('constraints', 0.5)],
@@ -1100,6 +1120,7 @@ def run_step_validation(res, insts, owner, module='MMStepTrace'):
 # ---------------------------------------------------------------------------------------------- large panels (greedy only)
 def attach_oracle_lite(inst):
   """Per-geo facts only (weights, screens, impact order): no tables over all designs."""
+  keep_in_tlc_range(inst)
   n = inst['n']
   p = oracle_par(inst)
   full = np.zeros((n, inst['n_dates']))
